@@ -509,21 +509,37 @@ def d2_what(d: CDef, lang: str) -> str:
 def check_python(c: Case, outdir: str, stats: Stats) -> None:
     with pyexec.PyModules(outdir) as pm:
         for fi, f in enumerate(c.files):
-            shaped_here = [d for j in closure(c.files, fi) for d in d2_shaped(c.files[j], "py")]
             try:
                 with warnings.catch_warnings():
                     warnings.simplefilter("ignore")  # SyntaxWarning: invalid escape sequence (D2-shaped strings)
                     mod = pm.load(f.base + "_bp")
-            except SyntaxError as e:
-                fn = os.path.basename(e.filename or "")
-                owner = [j for j in closure(c.files, fi) if c.files[j].base + "_bp.py" == fn]
-                if owner and d2_shaped(c.files[owner[0]], "py"):
-                    stats.known_finding("D2", "generated Python is not importable: " + d2_what(d2_shaped(c.files[owner[0]], "py")[0], "py") + f" -> SyntaxError: {e.msg}")
-                    stats.count("py_module_lost_to_D2")
-                    continue
-                raise Violation(f"generated Python module {f.base}_bp does not compile: {e}", signature="py-syntax")
             except Exception as e:
+                # D2 only if the failure lies at / after the assignment of a string that needs escaping in Python, in the
+                # generated module that holds it: SyntaxError position, or innermost generated-module frame of a run-time error
+                if isinstance(e, SyntaxError):
+                    fn, ln = os.path.basename(e.filename or ""), e.lineno or 0
+                else:
+                    fn, ln = "", 0
+                    tb = e.__traceback__
+                    while tb is not None:
+                        if os.path.dirname(os.path.abspath(tb.tb_frame.f_code.co_filename)) == os.path.abspath(outdir):
+                            fn, ln = os.path.basename(tb.tb_frame.f_code.co_filename), tb.tb_lineno
+                        tb = tb.tb_next
+                owner = [j for j in closure(c.files, fi) if c.files[j].base + "_bp.py" == fn]
+                sh = d2_shaped(c.files[owner[0]], "py") if owner else []
+                if sh:
+                    with open(os.path.join(outdir, fn), newline="") as fh:
+                        lines = re.split(r"\r\n|\r|\n", fh.read())
+                    first = [k + 1 for k, l in enumerate(lines) if l.startswith(f"{sh[0].name}: str = ")]
+                    runtime_ok = isinstance(e, SyntaxError) or any('"' in d.value for d in sh)  # only an unescaped quote can end the literal and leave code behind it
+                    if first and ln >= first[0] and runtime_ok:
+                        stats.known_finding("D2", "generated Python is not importable: " + d2_what(sh[0], "py") + f" -> {type(e).__name__}: {getattr(e, 'msg', e)}")
+                        stats.count("py_module_lost_to_D2")
+                        continue
+                if isinstance(e, SyntaxError):
+                    raise Violation(f"generated Python module {f.base}_bp does not compile: {e}", signature="py-syntax")
                 raise Violation(f"generated Python module {f.base}_bp cannot be imported: {type(e).__name__}: {e}", signature=f"py-import:{type(e).__name__}")
+            stats.target("python modules read")
             for d in f.consts():
                 stats.evaluations += 1
                 stats.count("emit:py")
@@ -536,7 +552,7 @@ def check_python(c: Case, outdir: str, stats: Stats) -> None:
                 got = getattr(mod, d.name)
                 if same(d.kind, got, d.value):
                     continue
-                if d.kind == "str" and CE.needs_escape("py", d.value) and isinstance(got, str):
+                if d.kind == "str" and CE.needs_escape("py", d.value):
                     stats.known_finding("D2", d2_what(d, "py") + f": Python value {got!r} != declared {d.value!r}")
                     continue
                 raise Violation(f"Python constant {f.base}_bp.{d.name} = {got!r} ({type(got).__name__}); declared `{d.text}` denotes {d.value!r}", signature=f"py-value:{d.kind}")
@@ -646,6 +662,7 @@ def check_c(c: Case, fi: int, outdir: str, work: str, stats: Stats) -> None:
     rr = subprocess.run([exe], stdout=subprocess.PIPE, stderr=subprocess.PIPE, timeout=60)
     if rr.returncode != 0:
         raise Violation(f"C program reading the constants of {f.base}_bp.h died with {rr.returncode}", signature="c-run")
+    stats.target("C programs compiled and run (gcc)")
     got: Dict[str, List[str]] = {}
     for line in rr.stdout.decode("ascii").splitlines():
         parts = line.split(" ")
@@ -767,6 +784,7 @@ def check_go(c: Case, fi: int, outdir: str, stats: Stats) -> None:
         toks = tokenize("\n".join(src.split("\n")[: first_line - 1]) + "\n")
         lost_after = consts.index(shaped[0])
         consts = consts[:lost_after]
+    stats.target("Go files lexed")
     decl = go_const_tokens(toks, [d.name for d in consts])
     for d in consts:
         stats.evaluations += 1
@@ -796,6 +814,7 @@ def check_go(c: Case, fi: int, outdir: str, stats: Stats) -> None:
             prog = Program({RUNTIME_IMPORT_PATH: go_runtime(), f.base + "_bp": src})
         except GoSyntaxError as e:
             raise Violation(f"generated Go {f.base}_bp.go is rejected by the Go type checker: {e}", signature="go-compile")
+        stats.target("Go files type-checked by gointerp")
         for d in consts:
             v, t = prog.const(f.base + "_bp", d.name)
             stats.evaluations += 1
